@@ -86,7 +86,7 @@ pub fn plans(tier: Tier, inst: &Inst, have_ship: bool) -> Vec<Plan> {
         // is sequential consistency) and the instance is small enough to pay for it twice.
         let extra: Vec<Plan> = v
             .iter()
-            .filter(|p| p.cfg.s > 0 && inst.size <= 3 && (p.build == "small" || inst.size <= 2))
+            .filter(|p| p.cfg.s > 0 && inst.size <= 3 && (p.build == "small" || inst.size <= 1))
             .map(|p| {
                 let mut q = p.clone();
                 q.cfg.model = rt::Model::M3L;
@@ -146,12 +146,17 @@ fn plans_m2(tier: Tier, inst: &Inst, have_ship: bool) -> Vec<Plan> {
         // quick tier only on the fallback-only path (the cheapest), one less on the others.
         let p = if tier == Tier::Quick && inst.size >= 4 && !inst.name.contains("nofast") { p.saturating_sub(1) } else { p };
         let mut v = vec![mk("small", p + extra, s, f, if p == 0 { 1 } else { 2 })];
-        if tier == Tier::Thorough && have_ship {
+        if tier == Tier::Thorough && have_ship && !inst.no_ship {
             v.push(mk("ship", p, s, f, 1));
         }
         return v;
     }
     let mut v = Vec::new();
+    let explicit = if tier == Tier::Quick { inst.bounds_quick } else { inst.bounds_thorough };
+    if let Some((p, s, f)) = explicit {
+        v.push(mk("small", p, s, f, 2));
+        return v;
+    }
     match tier {
         Tier::Quick => match inst.size {
             0 | 1 => v.push(mk("small", 3, 1, 1, 1)),
